@@ -181,6 +181,14 @@ fn ecies_enc(req: &Value) -> R {
             Err(_) => mk_key(req, "key", "compressed")?.to_public_key().map_err(lib)?,
         };
         o["direct_decrypt"] = sub(|| ECIES::decrypt(&ct, &rk, &sender_pub), |b| h(&b));
+        // the same in-memory object with a wrong recipient key / a wrong sender key (must not yield plaintext)
+        if let Some(wk) = hx_opt(req, "wrong_key")? {
+            let wk = PrivateKey::from_bytes(&wk).map_err(|e| drv(format!("wrong_key: {}", e)))?;
+            o["direct_decrypt_wrong_recipient"] = sub(|| ECIES::decrypt(&ct, &wk, &sender_pub), |b| h(&b));
+            o["direct_decrypt_wrong_recipient_via_key"] = sub(|| wk.decrypt_message(&ct, &sender_pub), |b| h(&b));
+            let wpub = wk.to_public_key().map_err(lib)?;
+            o["direct_decrypt_wrong_sender"] = sub(|| ECIES::decrypt(&ct, &rk, &wpub), |b| h(&b));
+        }
     }
     Ok(o)
 }
